@@ -4,7 +4,6 @@
 From Coq Require Import List NArith Bool String.
 From PrefVerif Require Import Lib.Val Lib.Dec Lib.PyStr.
 Import ListNotations.
-Open Scope string_scope.
 
 (* ---- Python dict as an association list in insertion order ---- *)
 Fixpoint assoc_get {K V} (eqb : K -> K -> bool) (k : K) (d : list (K * V)) : option V :=
@@ -54,13 +53,14 @@ Definition set_reserved (m : meta) (v : list text) := mkMeta (file_name m) (titl
 Definition py_int (s : text) : result N :=
   match read_N (strip s) with Some n => Ok n | None => Err ValueErr end.
 
-(* ---- re.match(r"<prefix>(\d+): ?(.*)", line) : Some (digits, rest) ---- *)
+(* ---- re.match of the name pattern [prefix, one or more digits, colon, optional space, rest of line]:
+   Some (number, rest) ---- *)
 Fixpoint span_digits (s : text) : text * text :=
   match s with
   | c :: r => if is_digit c then let '(d, t) := span_digits r in (c :: d, t) else ([], s)
   | [] => ([], [])
   end.
-(* (.*) stops at the first "\n" *)
+(* the final group stops at the first newline character *)
 Fixpoint upto_nl (s : text) : text :=
   match s with
   | [] => []
@@ -68,10 +68,10 @@ Fixpoint upto_nl (s : text) : text :=
   end.
 Definition match_name (prefix : text) (line : text) : option (N * text) :=
   if startswith prefix line then
-    let '(d, t) := span_digits (drop (length prefix) line) in
+    let '(d, t) := span_digits (drop (List.length prefix) line) in
     match d, t with
-    | _ :: _, 58%N :: t' =>                         (* ':' *)
-      let t'' := match t' with 32%N :: u => u | _ => t' end in   (* " ?" *)
+    | _ :: _, 58%N :: t' =>                         (* colon *)
+      let t'' := match t' with 32%N :: u => u | _ => t' end in   (* optional space *)
       match read_N d with
       | Some n => Some (n, upto_nl t'')
       | None => None
@@ -83,7 +83,7 @@ Definition match_name (prefix : text) (line : text) : option (N * text) :=
 Definition alt_name_prefix : text := lit "# ALTERNATIVE NAME ".
 Definition cat_name_prefix : text := lit "# CATEGORY NAME ".
 
-(* tmp = 1; while name + "__" + str(tmp) in used: tmp += 1   (explicit fuel; never exhausted with
+(* tmp = 1; while name + __ + str(tmp) in used: tmp += 1   (explicit fuel; never exhausted with
    fuel = S (length used), proved in Proofs) *)
 Definition suffixed (name : text) (k : N) : text := name ++ lit "__" ++ show_N k.
 Fixpoint find_free (fuel : nat) (name : text) (used : list text) (k : N) : result text :=
@@ -97,7 +97,7 @@ Fixpoint find_free (fuel : nat) (name : text) (used : list text) (k : N) : resul
 Definition corrected_name (autocorrect : bool) (name : text) (vals : list text) (resv : list text)
   : result text :=
   if autocorrect && tmem name vals
-  then find_free (S (length vals + length resv)) name (vals ++ resv) 1
+  then find_free (S (List.length vals + List.length resv)) name (vals ++ resv) 1
   else Ok name.
 
 (* names reserved by parse_lines / CategoricalInstance.parse when autocorrect is on *)
@@ -126,9 +126,10 @@ Definition parse_metadata (autocorrect : bool) (m : meta) (line : text) : result
     end
   else Ok m.
 
-(* ---- write_metadata: the nine header lines, each terminated by "\n" ---- *)
+(* ---- write_metadata: the nine header lines, each terminated by a newline ---- *)
 Definition nl : text := [10%N].
 Definition hline (key : string) (v : text) : text := lit key ++ v ++ nl.
+Arguments hline _%string_scope _.
 Definition write_metadata (m : meta) : text :=
   hline "# FILE NAME: " (file_name m) ++ hline "# TITLE: " (title m) ++
   hline "# DESCRIPTION: " (description m) ++ hline "# DATA TYPE: " (data_type m) ++
